@@ -5,6 +5,7 @@
 From V Require Import model.Base model.Conc model.Events model.SpscQueue proofs.SpscQueueProofs.
 From V Require model.OverflowQueue proofs.OverflowQueueProofs.
 From V Require model.SpscQueueRA proofs.SpscQueueRAProofs.
+From V Require model.OverflowQueueRA proofs.OverflowQueueRAProofs.
 Open Scope N_scope.
 
 (* index_queue.rs / spsc/queue.rs: in every reachable state, pushed = popped ++ content and
@@ -108,7 +109,18 @@ Example c03_oq_nonvacuous :
   reachable step (init 1 ex_progs) c /\
   pushed (fst c) = [7; 8] /\ removed (fst c) = [(7, false); (8, true)] /\ content (fst c) = [].
 Proof. cbv zeta. split; [exists ex_sched; reflexivity|]. vm_compute. auto. Qed.
+
+(* FULL statement "no two pending accesses to one slot" (what c03_spsc_no_slot_conflict gives
+   for the other two queues) is false here: finding oq-speculative-read.  spec_sched is replayed
+   on the implementation on every run. *)
+Example c03_oq_no_slot_conflict_refuted :
+  let c := fst (run step spec_sched (init 1 spec_progs)) in
+  reachable step (init 1 spec_progs) c /\
+  at_pc (snd c 0%nat) = PushWrite 9 2 1 /\ at_pc (snd c 1%nat) = PopRead 0 /\
+  2 mod m_of (fst c) = 0 mod m_of (fst c).
+Proof. exact oq_no_slot_conflict_refuted. Qed.
 End OQ.
+Print Assumptions OQ.c03_oq_no_slot_conflict_refuted.
 Print Assumptions OQ.c03_oq_conservation.
 Print Assumptions OQ.c03_oq_bounded_when_producer_idle.
 Print Assumptions OQ.c03_oq_roles_exclusive.
@@ -152,3 +164,70 @@ Print Assumptions RA.c03_ra_race_free_and_conserving.
 Print Assumptions RA.c03_ra_needs_release_on_write_cursor.
 Print Assumptions RA.c03_ra_needs_release_on_read_cursor.
 Print Assumptions RA.c03_ra_nonvacuous_stale_read.
+
+(* ---------------- release/acquire view model (safely_overflowing_index_queue.rs) ---------------- *)
+Module OQRA.
+Import V.model.OverflowQueueRA V.proofs.OverflowQueueRAProofs.
+
+(* With the memory orderings of the current code (oq_ords_sync; pinned against the
+   implementation by the trace comparison on every run), under release/acquire semantics in
+   which every plain load of either cursor and every FAILED compare-exchange of read_position
+   may return an arbitrarily stale value (oracle) and only an acquire read of a value written
+   by a release (or of a later value of its release sequence) transfers visibility: no slot
+   access whose value is used is racy, every pushed value is exactly once popped, evicted (in
+   push order) or still queued, and at most capacity + 1 values are queued; for every capacity
+   (0 included), every schedule, every oracle, any number of pushes and pops. *)
+Theorem c03_oqra_used_race_free_and_conserving : forall c orc pushes pops g ls,
+  reachable (qstep oq_ords_sync) (qinit c orc pushes pops) (g, ls) ->
+  race_used g = false /\ qpushed g = map fst (qremoved g) ++ qcontent g /\
+  (length (qcontent g) <= N.to_nat c + 1)%nat.
+Proof. exact qra_used_race_free_and_conserving. Qed.
+
+Theorem c03_oqra_pop_reads_fresh : forall c orc pushes pops g ls r v fresh,
+  reachable (qstep oq_ords_sync) (qinit c orc pushes pops) (g, ls) ->
+  qat (ls 1%nat) = QPopCas r v fresh ->
+  fresh = true /\ (r = qrp g -> hd_error (qcontent g) = Some v).
+Proof. exact qra_pop_reads_fresh. Qed.
+
+(* each of the seven orderings is necessary (weakening it alone admits a racy used access) *)
+Example c03_oqra_orderings_necessary :
+  used_race_after (with_push_load_rp Relaxed) 1 [] [7;8;9] 1 w1_sched = true /\
+  used_race_after (with_pop_cas Relaxed) 1 [] [7;8;9] 1 w1_sched = true /\
+  used_race_after (with_pop_load_rp Relaxed) 1 w2_orc [7;8] 1 w2_sched = true /\
+  used_race_after (with_push_cas Acquire) 1 w2_orc [7;8] 1 w2_sched = true /\
+  used_race_after (with_pop_cas_fail Relaxed) 1 w4_orc [7;8;9] 1 w4_sched = true /\
+  used_race_after (with_pop_load_wp Relaxed) 1 [] [7] 1 w5_sched = true /\
+  used_race_after (with_push_store_wp Relaxed) 1 [] [7] 1 w5_sched = true /\
+  used_race_after oq_ords_sync 1 [] [7;8;9] 1 w1_sched = false /\
+  used_race_after oq_ords_sync 1 w2_orc [7;8] 1 w2_sched = false /\
+  used_race_after oq_ords_sync 1 w4_orc [7;8;9] 1 w4_sched = false /\
+  used_race_after oq_ords_sync 1 [] [7] 1 w5_sched = false.
+Proof. exact qra_orderings_necessary. Qed.
+
+(* the table of the pinned upstream commit is refuted (finding oq-ra-read-position, repaired) *)
+Example c03_oqra_upstream_table_refuted :
+  used_race_after oq_ords_upstream 1 [] [7;8;9] 1 w1_sched = true /\
+  used_race_after oq_ords_upstream 1 w2_orc [7;8] 1 w2_sched = true.
+Proof. exact qra_upstream_table_refuted. Qed.
+
+(* FULL statement "no racy slot access at all" is false of the faithful model, whatever the
+   orderings: the consumer's speculative slot read (value discarded when its compare-exchange
+   fails) is unordered with the producer's re-use of that slot (finding oq-speculative-read) *)
+Example c03_oqra_no_race_at_all_refuted :
+  let g := q_after oq_ords_sync 1 [] [7;8;9] 1 w3_sched in
+  let g' := q_after all_seqcst 1 [] [7;8;9] 1 w3_sched in
+  race_spec g = true /\ race_used g = false /\ qremoved g = [(7, false); (8, true)] /\
+  race_spec g' = true /\ race_used g' = false.
+Proof. exact qra_speculative_read_races. Qed.
+
+Example c03_oqra_nonvacuous_stale_read :
+  let g := q_after oq_ords_sync 1 [0; 0; 0; 5] [7; 8] 1 [0;0;0;0; 1;1;1;1; 0;0;0;0;0]%nat in
+  qrp g = 1 /\ qwp g = 2 /\ qpushed g = [7; 8] /\ qremoved g = [(7, true)] /\ qcontent g = [8] /\ race_used g = false.
+Proof. exact qra_nonvacuous_stale_read. Qed.
+End OQRA.
+Print Assumptions OQRA.c03_oqra_used_race_free_and_conserving.
+Print Assumptions OQRA.c03_oqra_pop_reads_fresh.
+Print Assumptions OQRA.c03_oqra_orderings_necessary.
+Print Assumptions OQRA.c03_oqra_upstream_table_refuted.
+Print Assumptions OQRA.c03_oqra_no_race_at_all_refuted.
+Print Assumptions OQRA.c03_oqra_nonvacuous_stale_read.
